@@ -1,6 +1,7 @@
 import Ecal.Lemmas.EvalHeap
 import Ecal.Lemmas.ContainerPaths
 import Ecal.Lemmas.EvalFrame
+import Ecal.Lemmas.EvalLists
 /-!
 # C05 — lexical scoping, functions, containers and objects
 
@@ -243,6 +244,55 @@ example : mapFieldLookup (mapStore [] (fieldKey [] [107]) (.bool true)) [107] = 
 /-- list cells: a write at a valid index is read back at that index -/
 theorem read_after_write_list (b : List Val) (i : Nat) (x : Val) (h : i < b.length) : (b.set i x)[i]? = some x := by
   simp [h]
+
+/-- `runBuiltin` (inside the mutual block) answers len / add / del / concat / new with the functions the
+    theorems below are about. -/
+theorem runBuiltin_uses (f sc : Nat) (node : Ecal.Parse.Node) (args : List Val) :
+    runBuiltin (f + 1) sc node "len" args = lenB args ∧ runBuiltin (f + 1) sc node "add" args = addB args ∧
+    runBuiltin (f + 1) sc node "del" args = delB args ∧ runBuiltin (f + 1) sc node "concat" args = concatB args ∧
+    runBuiltin (f + 1) sc node "new" args = newB (fun id rest => do
+        let ivs ← newScope "newfunc"
+        withFreshIs (runFunction f ivs id rest)) args := by
+  refine ⟨?_, ?_, ?_, ?_, ?_⟩ <;> (unfold runBuiltin; rfl)
+
+/-- len / add / del against the list and map model (`St.elems st r l` = the elements of the slice `.list r l`,
+    `St.entries st r` = the entries of map `r`):
+    * `len` = length of the list / number of entries of the map; anything else, or no argument, is an error;
+    * `add(l, v)` = Go's `append`: old elements followed by `v`; in the SAME backing array when the capacity
+      suffices (aliases no longer than the old list keep their elements, capacity unchanged), otherwise in a NEW
+      array (no alias of the old list changes); no other array is touched; first argument not a list, or fewer
+      than two arguments: error;
+    * `del(l, i)` with `0 ≤ i < len`: the old elements without position `i`, shifted inside the same array;
+      outside that range: error; `del(m, k)` filters out the entry under the STRING form of `k`. -/
+theorem len_add_del_model :
+    (∀ r l rest, lenB (.list r l :: rest) = pure (.num (Float.ofNat l))) ∧
+    (∀ r rest st, runM (lenB (.map r :: rest)) st = (.ok (.num (Float.ofNat (st.entries r).length)), st)) ∧
+    (lenB [] = throw (plain "Need a list or a map as first parameter")) ∧
+    (∀ r l v, addB [.list r l, v] = appendVals r l [v]) ∧
+    (∀ r l vs st st' res, r < st.lists.size → l ≤ (st.backing r).length →
+      runM (appendVals r l vs) st = (.ok res, st') →
+      ∃ r', res = .list r' (l + vs.length) ∧ st'.elems r' (l + vs.length) = st.elems r l ++ vs ∧
+        (∀ q, q ≠ r' → st'.backing q = st.backing q) ∧
+        ((r' = r ∧ (st'.backing r).length = (st.backing r).length ∧ ∀ l2, l2 ≤ l → st'.elems r l2 = st.elems r l2) ∨
+         (r' = st.lists.size ∧ ∀ l2, st'.elems r l2 = st.elems r l2))) ∧
+    (∀ a v rest, (∀ r l, a ≠ .list r l) → addB (a :: v :: rest) = throw (plain "Parameter 1 should be a list")) ∧
+    (∀ r l i st, r < st.lists.size → l ≤ (st.backing r).length → i < l →
+      ∃ st', runM (delAt r l i) st = (.ok (.list r (l - 1)), st') ∧ st'.elems r (l - 1) = (st.elems r l).eraseIdx i ∧
+        st'.backing r = (st.backing r).take i ++ ((st.backing r).take l).drop (i + 1) ++ (st.backing r).drop (l - 1) ∧
+        ∀ q, q ≠ r → st'.backing q = st.backing q) ∧
+    (∀ r l x i st, runM (goInt x) st = (.ok i, st) →
+      runM (delB [.list r l, .num x]) st =
+        if i < 0 || i ≥ (l : Int) then (.error (plain "Out of bounds access to list"), st) else runM (delAt r l i.toNat) st) ∧
+    (∀ r k key st, runM (sprint k) st = (.ok key, st) →
+      runM (delB [.map r, k]) st =
+        (.ok (.map r), { st with maps := st.maps.setIfInBounds r ((st.entries r).filter fun p => !(keyEq p.1 (.str key))) })) :=
+  ⟨len_list, len_map, len_noargs, add_append,
+   fun r l vs st st' res hr hl h => append_model r l vs st st' res hr hl h,
+   add_noList, delAt_model, del_list_run, del_map_run⟩
+
+/-- non-vacuity of the aliasing cases: appending to a full slice moves to a new array, to a slice with room stays -/
+example : ∃ st', runM (appendVals 1 1 [.null]) { lists := #[[], [.null]] } = (.ok (.list 2 2), st') := ⟨_, rfl⟩
+example : ∃ st', runM (appendVals 1 1 [.null]) { lists := #[[], [.null, .bool true]] } = (.ok (.list 1 2), st') := ⟨_, rfl⟩
 
 /-- Any nesting (maps with number and string keys, lists with negative indices) on acyclic tree values: a
     successful write through a flattened access path is read back through the same path. -/
